@@ -326,7 +326,7 @@ class Run:
         costs time (a changed library can make every case slow)"""
         if len(self.violations) >= 8:
             return True
-        limit = 420 if self.tier == "quick" else 4 * 3600
+        limit = 900 if self.tier == "quick" else 4 * 3600
         if time.time() - self.t0 > limit:
             if "time budget exhausted" not in self.notes:
                 self.notes.append("time budget exhausted")
